@@ -262,12 +262,12 @@ PROPS["C16"] = {
                   "and that with additive accumulation the specification's reverse walk equals finite differences of the network function; each "
                   "behaviour is replayed: accept/reject per call, predict under all five accumulations, and every parameter gradient (additive) "
                   "compared exactly",
-    "level_note": "five base networks of depth 3-4 (dense, conv, deconv, max-pool), at most 2 (3) connect calls, sparse identity-like integer weights (the run fails as vacuous unless the five accumulations give distinguishable outputs); a second "
+    "level_note": "seven base networks of depth 3-5 (dense, conv, deconv, max-pool), at most 2 (3) connect calls, sparse identity-like integer weights (the run fails as vacuous unless the five accumulations give distinguishable outputs); a second "
                   "connection to an already-targeted layer must be rejected (keeping both is not representable in the code's data structure)",
     "rule": "one case = one Connect behaviour on a base network, evaluated per data seed under 5 accumulations; all distinct; non-trivial = at least one accepted connection",
-    "mc": [flow_mc("skip", ["{1, 2, 3, 4, 5}", 2, 1, 1, "{1, 2}", "FALSE"], ["{1, 2, 3, 4, 5}", 3, 1, 1, "{1, 2, 3}", "FALSE"]),
+    "mc": [flow_mc("skip", ["{1, 2, 3, 4, 5, 6, 7}", 2, 1, 1, "{1, 2}", "FALSE"], ["{1, 2, 3, 4, 5, 6, 7}", 3, 1, 1, "{1, 2, 3}", "FALSE"]),
            # the gradient theorem (finite differences in TLC) on the dense and the dense/conv network (quick) / all (thorough)
-           flow_mc("skip", ["{1, 4}", 2, 1, 1, "{1}", "TRUE"], ["{1, 2, 3, 4, 5}", 2, 1, 1, "{1, 2}", "TRUE"])],
+           flow_mc("skip", ["{1, 4, 7}", 2, 1, 1, "{1}", "TRUE"], ["{1, 2, 3, 4, 5, 6, 7}", 2, 1, 1, "{1, 2}", "TRUE"])],
     "assumptions": FLOW_ASSUME,
 }
 PROPS["C17"] = {
